@@ -309,6 +309,14 @@ func c17Pairs(c *Ctx) {
 			for _, r := range flow.Returns(fn) {
 				t := e.Select(r.Results[0], nil, r)
 				fcs := findCallTerms(t, "(time.Time).Format")
+				if afs := findCallTerms(t, "(time.Time).AppendFormat"); len(fcs) == 0 && len(afs) == 1 && len(afs[0].Args) == 3 {
+					// AppendFormat(buf, layout): the same formatter writing into a buffer
+					af := afs[0]
+					checkTerm(c, rule, key+"/receiver", ipos(c, r), "formatted time", af.Args[0], flow.Param(0))
+					layoutM = af.Args[2]
+					checkTerm(c, rule, key+"/layout", ipos(c, r), "layout (ISO 8601 to one second)", af.Args[2], flow.ConstString(rfc3339))
+					continue
+				}
 				if len(fcs) != 1 || len(fcs[0].Args) != 2 {
 					c.Run.Unknown(rule, key+"/call:Time.Format", ipos(c, r), "the returned text is built by one call of (time.Time).Format", short(t.String()))
 					continue
